@@ -3,6 +3,8 @@
 package memdb
 
 import (
+	"verifharness/vclock"
+
 	"database/sql/driver"
 	"fmt"
 	"sort"
@@ -86,6 +88,7 @@ type savepoint struct {
 
 // Entry is one journal record: an operation a connection asked of the server.
 type Entry struct {
+	G        int64 // global sequence shared with the coordinator's message log
 	Seq      int
 	Conn     int
 	Txn      int    // 0 = none
@@ -111,28 +114,28 @@ type Op struct {
 
 // Sched lets a cooperative scheduler own every memdb scheduling point.
 type Sched interface {
-	Point(desc string)                   // called at statement-level entry points (server lock not held)
+	Point(desc string)                    // called at statement-level entry points (server lock not held)
 	Block(desc string, ready func() bool) // park the caller until ready() is true (server lock not held)
 }
 
 type Server struct {
-	mu        sync.Mutex
-	cond      *sync.Cond
-	Addr      string
-	DBName    string
-	Version   string
-	tables    map[string]*Table
-	tableSeq  []string
-	conns     map[int]*conn
-	nextConn  int
-	nextTxn   int
-	locks     map[string]*txn // row lock table: "table\x1epk" -> owner
-	prepared  map[string]*txn // XA xid -> detached prepared transaction
-	journal   []Entry
-	seq       int
-	Fault     func(op Op) error // consulted before every operation; non-nil result fails it
-	Sched     Sched
-	NoJournal bool
+	mu            sync.Mutex
+	cond          *sync.Cond
+	Addr          string
+	DBName        string
+	Version       string
+	tables        map[string]*Table
+	tableSeq      []string
+	conns         map[int]*conn
+	nextConn      int
+	nextTxn       int
+	locks         map[string]*txn // row lock table: "table\x1epk" -> owner
+	prepared      map[string]*txn // XA xid -> detached prepared transaction
+	journal       []Entry
+	seq           int
+	Fault         func(op Op) error // consulted before every operation; non-nil result fails it
+	Sched         Sched
+	NoJournal     bool
 	LockWaitLimit int // free-running mode: give up a lock wait after this many wake-ups (0 = wait forever)
 }
 
@@ -172,6 +175,7 @@ func (s *Server) record(e Entry) {
 		return
 	}
 	e.Seq = len(s.journal)
+	e.G = vclock.Next()
 	s.journal = append(s.journal, e)
 }
 
